@@ -56,6 +56,12 @@ class ObligationClient(Client):
         self.f = f
         self.may = may
         self.is_ctor_like = False
+        self.dead_destroys = []
+        self.linit = dict(A.local_inits(f.get('body') or {}))
+        for st, lhs in A.stores(f.get('body') or {}):         # a re-assigned pointer local is not a stable alias
+            l = A.strip(lhs)
+            if isinstance(l, dict) and l.get('k') == 'ref' and l.get('dk') == 'local':
+                self.linit.pop(l.get('did'), None)
 
     def is_event(self, n):
         return n.get('k') in ('call', 'construct', 'new', 'throw') or (n.get('k') == 'bin' and n.get('op') == '=')
@@ -90,14 +96,14 @@ class ObligationClient(Client):
         elif kind == 'hole_consume':
             ns = frozenset(o for o in s if o[0] != 'hole')
             if det == 'relocate_after_shift' and n.get('args'):
-                did = R.elem_storage_local(n['args'][0])
+                did = R.elem_storage_local(n['args'][0], self.linit)
                 if did is not None:
                     ns = ns - {('temp', did)}
         elif kind == 'hole_close':
             ns = s - {('hole', det)}
         elif kind == 'construct':
             dest = R.dest_arg(n) if n.get('k') == 'call' else (n.get('placement') or [None])[0]
-            did = R.elem_storage_local(dest) if dest is not None else None
+            did = R.elem_storage_local(dest, self.linit) if dest is not None else None
             if did is not None:
                 ns = s | {('temp', did)}
             elif ('hole', 'raw') in s and det in ('construct_at', 'new'):
@@ -105,12 +111,14 @@ class ObligationClient(Client):
             else:
                 ns = s | {('raw',)}
             if det == 'relocate_at' and n.get('args'):
-                src = R.elem_storage_local(n['args'][0])
+                src = R.elem_storage_local(n['args'][0], self.linit)
                 if src is not None:
                     ns = ns - {('temp', src)}
         elif kind == 'destroy':
-            did = R.elem_storage_local(n['args'][0]) if n.get('args') else None
+            did = R.elem_storage_local(n['args'][0], self.linit) if n.get('args') else None
             if did is not None:
+                if ('temp', did) not in s:
+                    self.dead_destroys.append((n, did))      # destroys an object that was never constructed on this path
                 ns = s - {('temp', did)}
             elif self.eng.handler_depth > 0:
                 ns = frozenset(o for o in s if o[0] != 'raw')
@@ -170,6 +178,10 @@ def obligations(progs, rule_filter=None):
                 res[kp].instance('%s|%s' % (kp, site_base), {'function': f['pname'][:150], 'unit': prog.uname,
                                                              'normal_exit_states': len(o.normal) + len(o.returns),
                                                              'exceptional_exit_states': len(o.throws)})
+            for n_, did_ in cl.dead_destroys:
+                res['TEMP'].add(Finding('TEMP', '%s|destroy-nonlive' % f['key'], prog.site(f, n_),
+                                        'the object in the local ElemStorage is destroyed on a path on which it was never constructed (e.g. its own constructor '
+                                        'threw): a destructor runs on raw storage', where=f['pname'], unit=prog.uname))
             # normal exits
             for s in list(o.normal) + [st for st, _ in o.returns]:
                 for ob in s:
